@@ -322,7 +322,7 @@ def gen_args(rng, fn, i):
         elif k == "ipv4":
             c[k] = rng.choice(["10.203.204.205", "0.0.0.0", "255.255.255.255", "%d.%d.%d.%d" % tuple(rng.below(256) for _ in range(4))])
         elif k == "ids":
-            lists = [None, [5], [0, 255], [256], [-1], [], [1, 2, 3], [7, 300], list(range(1, 17))]
+            lists = [None, [5], [0, 255], [256], [-1], [], [1, 2, 3], [7, 300], list(range(1, 17)), list(range(256)), list(range(255)), [i % 256 for i in range(257)]]
             if slot == 2 and j < len(lists):
                 c[k] = lists[j]
             else:
